@@ -82,6 +82,9 @@ func (x *Exec) fit(v *Term, t types.Type) *Term {
 	if x.eng.noWrap {
 		return v
 	}
+	if bl, bh, ok := boundsOf(v); ok && lo.IsInt64() && bl >= lo.Int64() && (!hi.IsInt64() || bh <= hi.Int64()) {
+		return v // provably in range: no solver query needed
+	}
 	tl, th := mkBig(lo), mkBig(hi)
 	in := tAnd(app(SBool, "<=", tl, v), app(SBool, "<=", v, th))
 	if !x.sat(tNot(in)) {
